@@ -39,7 +39,7 @@ package node
 // The UUID of a node is the SHA-1 of the type bytes followed by the id bytes, whatever the pooled
 // buffer contained before (Reset); su-def makes su(n) a name for exactly that value.
 //@ pool bufPool: x != nil
-//@ props C06
+//@ props C06 C01 C02
 //@ func (n *Node) UUID
 //@   opt axioms su-def
 //@   requires wfNode(n)
